@@ -27,16 +27,16 @@ ASSUMPTIONS = ['vmon.refcodec follows the AMQP 0-9-1 grammar and RabbitMQ '
 def shards(tier, seed):
     out = []
     groups = common.split(common.ALL_INDEXES, 8)
-    nr = 60 if tier == 'quick' else 1500
+    nr = 60 if tier == 'quick' else 5000
     for gi, g in enumerate(groups):
         out.append({'name': 'meth%d' % gi, 'what': 'method', 'indexes': g,
                     'rep': 0, 'n_random': nr})
     for i in range(4):
         out.append({'name': 'hdr%d' % i, 'what': 'header', 'i': i, 'n': 4,
-                    'draws': 1 if tier == 'quick' else 6})
+                    'draws': 1 if tier == 'quick' else 30})
     for i in range(3):
         out.append({'name': 'tab%d' % i, 'what': 'table', 'i': i, 'n': 3,
-                    'n_random': 1500 if tier == 'quick' else 40000,
+                    'n_random': 1500 if tier == 'quick' else 150000,
                     'grid': tier != 'quick'})
     out.append({'name': 'misc', 'what': 'misc',
                 'n': 400 if tier == 'quick' else 8000})
